@@ -2013,11 +2013,10 @@ def deps_emission_rule(syn, crate, prop, rule):
     want = {"Dependency::Transitive": "< # ty as # crate_rename :: TS > :: visit_dependencies ( v )",
             "Dependency::Generics": "< # ty as # crate_rename :: TS > :: visit_generics ( v )",
             "Dependency::Type": "v . visit :: < # ty > ( )"}
+    from rules.field_rules import deps_kind_templates
+    _, per_kind = deps_kind_templates(crate)
     for key, tpl in want.items():
-        got = None
-        for e in templates(fn):
-            if any(c["k"] == "match" and S.squash(c["pat"]).startswith(key) for c in e["ctx"]):
-                got = " ".join(t for t in S.flat(e["tokens"]) if isinstance(t, str))
+        got = per_kind.get(key)       # read from MIR: helpers spliced in, independent of arm order and variable names
         ok = got is not None and S.squash(got) == S.squash(tpl)
         r.inst(fn=fn["qual"], entry=key, emits=got, ok=ok)
         if not ok:
